@@ -12,8 +12,8 @@ Theorem C17_reset_points_as_modelled :
 Proof. exact reset_points_as_modelled. Qed.
 Print Assumptions C17_reset_points_as_modelled.
 
-(* a state in which nothing this file reads was left by other files (`clean`: no text
-   of it in the duplicate list, no stale location-macro / remark entry at the places
+(* a state in which nothing this file reads was left by other files (`clean`: no stale
+   location-macro / remark entry at the places
    its early findings look up, the extra suppressions neither match its findings nor
    collide with its own inline suppressions) gives exactly the findings, recorded
    flags and remarks of a freshly constructed object *)
@@ -44,12 +44,14 @@ Theorem C17_file_isolation pm ug n0 nf0 l1 f l2 Sf os Sa oa :
 Proof. exact (file_isolation pm ug n0 nf0 l1 f l2 Sf os Sa oa). Qed.
 Print Assumptions C17_file_isolation.
 
-(* which reset the duplicate list needs: a file that reaches mLogger->clear() leaves
-   it empty (so `in_texts` is only a condition on files leaving through an early exit) *)
-Theorem C17_clear_resets_duplicates pm ug S f S' o :
-  check_file pm ug S f = Some (S', o) -> a_kind f = Full -> l_seen (i_log S') = [].
-Proof. exact (clear_resets_duplicates pm ug S f S' o). Qed.
-Print Assumptions C17_clear_resets_duplicates.
+(* which reset the duplicate list needs: R1 empties it at the start of every file (fix 8cb695c),
+   so its content - e.g. what a file leaving through an early exit left there - has no influence *)
+Theorem C17_duplicate_list_irrelevant pm ug S f X S1 o1 S2 o2 :
+  check_file pm ug S f = Some (S1, o1) ->
+  check_file pm ug (with_seen S X) f = Some (S2, o2) ->
+  o1 = o2.
+Proof. exact (duplicate_list_irrelevant pm ug S f X S1 o1 S2 o2). Qed.
+Print Assumptions C17_duplicate_list_irrelevant.
 
 (* `in_hide` for ordinary inline suppressions follows from distinct file names *)
 Theorem C17_other_file_cannot_hide pm s e g :
@@ -72,25 +74,24 @@ Theorem C17_macro_suppression_leaks_refuted :
 Proof. exact macro_suppression_leaks. Qed.
 Print Assumptions C17_macro_suppression_leaks_refuted.
 
-(* the exit for up-to-date analyzer information lies before mLogger->clear(): the
-   replayed findings of a.c stay in the duplicate list and b.c's identical finding
-   (shared header) is not recorded for b.c *)
-Theorem C17_cached_return_keeps_duplicates_refuted :
+(* formerly refuted (known finding duplicate-list-kept-after-cached-file, fixed by 8cb695c): the
+   exit for up-to-date analyzer information still leaves a.c's replayed finding in the duplicate
+   list, but b.c's identical finding (shared header) is recorded for b.c all the same *)
+Theorem C17_cached_return_isolated :
   exists S1 o1 S2 o2 Sa oa,
     check_file pm_plain true (fresh_state [] []) ca = Some (S1, o1)
     /\ check_file pm_plain true S1 cb = Some (S2, o2)
     /\ check_file pm_plain true (fresh_state [] []) cb = Some (Sa, oa)
-    /\ map o_rec oa = [true] /\ map o_rec o2 = [false]
-    /\ l_seen (i_log S1) = [TXT_H].
-Proof. exact cached_return_keeps_duplicates. Qed.
-Print Assumptions C17_cached_return_keeps_duplicates_refuted.
+    /\ l_seen (i_log S1) = [TXT_H]
+    /\ map o_rec oa = [true] /\ map o_rec o2 = [true] /\ o2 = oa.
+Proof. exact cached_return_isolated. Qed.
+Print Assumptions C17_cached_return_isolated.
 
 (* the premises are inhabited: a file with a remark, an inline suppression, a location
    macro and a finding is independent of ... and precedes wb without changing its findings *)
 Example C17_indep_inhabited : indep pm_plain true ga wb.
 Proof.
   constructor.
-  - intros w _. reflexivity.
   - intros w m [].
   - intros w [].
   - intros s e [<-|[]] [<-|[]]. vm_compute. reflexivity.
